@@ -47,6 +47,7 @@ pub fn run(prop: &str, ctx: &Ctx) -> Option<Report> {
         "C18" => c18::run(ctx),
         "C19" => c19::run(ctx),
         "C16-valgrind" => c16::run_valgrind(ctx),
+        "C10-miri" => c10::run_miri(ctx),
         _ => return None,
     })
 }
